@@ -478,6 +478,18 @@ static void judge_c08(const glue::Files &files, const std::string &main, Result 
       return;
     }
   }
+  // "listed as available" is Program::getAvailableBreakpoints(): exactly the locations of the location table
+  {
+    std::set<Theo::BreakPoint> av = cr.code.getAvailableBreakpoints();
+    std::set<std::string> a, b;
+    for (auto &x : av) a.insert(loc(x));
+    for (auto &e : P.potential_breaks) b.insert(loc(e.first));
+    if (a != b) {
+      r.fail("bp:available-list", "getAvailableBreakpoints() lists " + std::to_string(a.size()) + " locations, the location table has " + std::to_string(b.size()) +
+                                      " (or they differ)");
+      return;
+    }
+  }
   // dynamic corollary: whatever a stepping run reports can be enabled, and what can be enabled is available
   Theo::VM vm(P);
   for (auto &e : P.potential_breaks)
